@@ -340,8 +340,29 @@ impl Context {
         task.set_data(&self.vars());
         self.emit_task(task)?;
 
-        // abort all running task
+        // close the tasks that are still open in the other branches, before the ending is reported
         let ctx = self;
+        let mut ancestors = Vec::new();
+        let mut parent = task.parent();
+        while let Some(p) = parent {
+            ancestors.push(p.id.clone());
+            parent = p.parent();
+        }
+        let mut tasks = self.proc.tasks();
+        tasks.sort_by(|a, b| a.timestamp.cmp(&b.timestamp));
+        for t in tasks {
+            if t.state().is_completed() || ancestors.contains(&t.id) {
+                continue;
+            }
+            if t.state().is_running() {
+                t.set_state(TaskState::Aborted);
+            } else {
+                t.set_state(TaskState::Skipped);
+            }
+            ctx.emit_task(&t)?;
+        }
+
+        // abort all running task
         let mut parent = task.parent();
         while let Some(task) = parent {
             if !task.state().is_completed() {
@@ -361,21 +382,6 @@ impl Context {
             }
 
             parent = task.parent();
-        }
-
-        // close the tasks that are still open in the other branches
-        let mut tasks = self.proc.tasks();
-        tasks.sort_by(|a, b| a.timestamp.cmp(&b.timestamp));
-        for t in tasks {
-            if t.state().is_completed() {
-                continue;
-            }
-            if t.state().is_running() {
-                t.set_state(TaskState::Aborted);
-            } else {
-                t.set_state(TaskState::Skipped);
-            }
-            ctx.emit_task(&t)?;
         }
         Ok(())
     }
